@@ -183,13 +183,15 @@ def markdown_first_line_is_rule(lines: list[str]) -> bool:
     become a thematic break (or a frontmatter delimiter). Likewise a paragraph that begins
     with `[label]: word` becomes a link reference definition once a line ends after the word.
     """
-    if not lines:
-        return False
-    # (Words from several source lines may join into a rule, as `_` and `__` do: also when
-    # the paragraph is a single line.)
-    return bool(_md_thematic_pat.match(lines[0])) or (
-        len(lines) > 1 and bool(_md_def_label_pat.match(lines[0]))
+    return len(lines) > 1 and bool(
+        _md_thematic_pat.match(lines[0]) or _md_def_label_pat.match(lines[0])
     )
+
+
+def markdown_line_is_rule(line: str) -> bool:
+    """A whole paragraph on one line that is a thematic break (words from several source
+    lines may join into one, as `_` and `__` do)."""
+    return bool(_md_thematic_pat.match(line))
 
 
 def markdown_escape_first_word(text: str, paragraph_start: bool = True) -> str:
